@@ -351,6 +351,120 @@ def run_c29(ctx, replay):
     vlib.finish(ctx, "model_checking", cov, assume, new, known)
 
 
+
+# ----------------------------------------------------------------------------- C28
+
+def rec(h, ty):
+    return {"h": h, "ty": ty}
+
+
+def stop(h):
+    return {"op": "stop", "h": h, "ty": ""}
+
+
+CLOSE = {"op": "close", "h": 0, "ty": ""}
+
+
+def feed(h, ty):
+    return {"op": "feed", "h": h, "ty": ty}
+
+
+RPC_CFG = "SPECIFICATION TraceSpec\nINVARIANT Done\nCONSTANT Scens = {}\n"
+
+
+def c28_scenarios(rng, thorough):
+    must = [
+        {"subs": ["stream"], "pre": [rec(1, "rec"), rec(1, "rec")], "prog": [[stop(1)], [CLOSE]]},
+        {"subs": ["monitor"], "pre": [rec(1, "rec")], "prog": [[stop(1), feed(1, "rec")], [stop(1)]]},
+        {"subs": ["query"], "pre": [rec(1, "ack"), rec(1, "resp"), rec(1, "done")], "prog": [[CLOSE]]},
+        {"subs": ["query"], "pre": [rec(1, "ack")], "prog": [[feed(1, "resp"), feed(1, "done")], [CLOSE]]},
+        {"subs": ["stream", "query"], "pre": [rec(1, "rec"), rec(2, "resp"), rec(2, "done")], "prog": [[stop(1)], [CLOSE]]},
+        {"subs": ["stream"], "pre": [], "prog": [[stop(1)], [feed(1, "rec"), CLOSE]]},
+        # nothing in flight when the channels are closed: must hold without any waiver
+        {"subs": ["stream"], "pre": [], "prog": [[stop(1), feed(1, "rec")], [stop(1), CLOSE]]},
+        {"subs": ["query"], "pre": [], "prog": [[feed(1, "done"), feed(1, "ack")], [CLOSE]]},
+        {"subs": ["monitor", "stream"], "pre": [], "prog": [[stop(1), feed(1, "rec"), feed(2, "rec")], [stop(2), feed(2, "rec")]]},
+    ]
+    if thorough:
+        must.append({"subs": ["stream", "monitor"], "pre": [rec(1, "rec"), rec(2, "rec")], "prog": [[stop(1), stop(2)], [CLOSE, CLOSE]]})
+    extra = []
+    for _ in range(16 if thorough else 3):
+        subs = [rng.choice(["stream", "monitor", "query"]) for _ in range(rng.randint(1, 2))]
+
+        def anyrec():
+            h = rng.randrange(len(subs)) + 1
+            return rec(h, rng.choice(["ack", "resp", "done"]) if subs[h - 1] == "query" else "rec")
+        pre = [anyrec() for _ in range(rng.randint(0, 3))]
+        prog = []
+        for _u in range(rng.randint(1, 2)):
+            ops = []
+            for _k in range(rng.randint(1, 2)):
+                c = rng.random()
+                stoppable = [h + 1 for h, k in enumerate(subs) if k != "query"]
+                if c < 0.4 and stoppable:
+                    ops.append(stop(rng.choice(stoppable)))
+                elif c < 0.65:
+                    ops.append(CLOSE)
+                else:
+                    r = anyrec()
+                    ops.append(feed(r["h"], r["ty"]))
+            prog.append(ops)
+        extra.append({"subs": subs, "pre": pre, "prog": prog})
+    return must + extra
+
+
+def c28_model(ctx, thorough):
+    cfg = "CONSTANT Scens <- %s\nINIT Init\nNEXT Next\nINVARIANT %s\nINVARIANT NoDeadlock\n"
+    mc = vlib.tlc(ctx, "MC_RPCClient", cfg % ("MCAll" if thorough else "MCQuick", "C28"), timeout=1500)
+    if mc.violated:
+        raise vlib.Inconclusive("model violates %s beyond the recorded finding -- spec error, no verdict" % mc.violated)
+    r = vlib.tlc(ctx, "MC_RPCClient", cfg % ("MCNoFlight", "C28Strict"), timeout=600)
+    if r.violated:
+        raise vlib.Inconclusive("model violates C28 with no record in flight (%s) -- spec error, no verdict" % r.violated)
+    mc.generated += r.generated
+    mc.distinct += r.distinct
+    r = vlib.tlc(ctx, "MC_RPCClient", cfg % ("MCFinding", "C28Strict"), timeout=600)
+    if not r.violated:
+        raise vlib.Inconclusive("the recorded finding (send on a channel closed between lookup and send) is not reachable in the model")
+    return mc
+
+
+def run_c28(ctx, replay):
+    thorough = ctx.thorough()
+    binary = build(ctx, "C28")
+    mc = None
+    if replay:
+        summary, rep, viol = replay_only(ctx, "C28", binary, "Trace_RPCClient", RPC_CFG, replay)
+        scens = []
+    else:
+        mc = c28_model(ctx, thorough)
+        scens = c28_scenarios(random.Random(ctx.seed), thorough)
+        args = ["-procs", "2"] + (["-maxpre", "2", "-budget1", "700", "-budget", "300", "-random", "40"] if thorough else
+                                  ["-maxpre", "1", "-budget1", "80", "-random", "10"])
+        summary, rep, viol = explore_and_validate(ctx, "C28", binary, scens, "Trace_RPCClient", RPC_CFG, args,
+                                                  chunks=6 if thorough else 4)
+    new, known = vlib.classify(ctx.prop, viol)
+    cov = {
+        "states": mc.distinct if mc else 1, "transitions": mc.generated if mc else 1, "exhaustive": bool(mc),
+        "model_constants": "listener + 1-2 user threads (Stop / Close / feed, <= 2 calls each), 1-2 subscriptions "
+                           "(stream, monitor, query), <= 3 records on the wire: %d scenarios, every interleaving" % (9 if thorough else 7),
+        "traces_validated_against_impl": rep.traces, "trace_lines": rep.lines, "divergences": len(rep.diverged),
+        "evaluations": summary["schedules"], "distinct_nontrivial": rep.traces,
+        "scenarios": summary["scenarios"], "scenarios_with_complete_dfs": summary["dfs_complete"],
+        "child_process_crashes": summary["crashes"], "deadlocked_or_hung_schedules": summary["hung"],
+        "rule": "the real client.RPCClient (listen / respondSeq / handlers / Stop / Close yield-instrumented) talks to a scripted "
+                "loopback msgpack server; its own listen goroutine is adopted by the cooperative scheduler; every schedule with <= 1 "
+                "preemption up to a budget (thorough: also <= 2) plus seeded random schedules runs in child processes (a panic kills "
+                "the child, the parent records the fatal step); each schedule is one trace validated against RPCClient.tla",
+        "samples": scens[:2],
+    }
+    assume = ["yield points before every statement of the instrumented functions of rpc_client.go; Lock calls become cooperative TryLock loops",
+              "subscriptions are initialised before the run (Stream/Monitor/Query returned)",
+              "subscriber channels have capacity 64 (no drops); the harness drains them after every step",
+              "goroutine states from runtime.Stack decide 'blocked in the runtime'"]
+    vlib.finish(ctx, "model_checking", cov, assume, new, known)
+
+
 def run(ctx, replay=None):
     if ctx.prop == "C29":
         return run_c29(ctx, replay)
